@@ -204,6 +204,35 @@ def exhaustive(depth, tag, policies=("noeviction", "volatile-lru")):
                     out.append(h.s)
     return out
 
+# ---- the largest relative times Go's time.Duration carries exactly ---------------------------------------------
+MAX_REL_S, MAX_REL_MS = 9223372036, 9223372036854      # beyond: KF-C04-duration-overflow (not generated)
+
+def boundary_histories(tag="b"):
+    """EXPIRE / PEXPIRE / SET EX|PX / GETEX EX|PX with the largest relative times in either direction that
+    time.Duration(n)*unit carries without wrapping, and one below: the model computes in unbounded integers,
+    C04_go_duration_exact says the Go arithmetic is exact up to here, these histories check the code agrees."""
+    out = []
+    n = 0
+    forms = []
+    for sign in (1, -1):
+        for off in (0, 1, 1000):
+            s_, ms_ = str(sign * (MAX_REL_S - off)), str(sign * (MAX_REL_MS - off))
+            forms += [("EXPIRE", "k", s_), ("PEXPIRE", "k", ms_), ("EXPIRE", "k", s_, "GT"), ("PEXPIRE", "k", ms_, "LT"),
+                      ("SET", "k", "w", "EX", s_), ("SET", "k", "w", "PX", ms_), ("SET", "k", "w", "px", ms_, "GET"),
+                      ("GETEX", "k", "EX", s_), ("GETEX", "k", "PX", ms_)]
+    for form in forms:
+        for start_dl in (0, 1500):
+            for start_ms in (0, 250):
+                h = Hist("%s%d" % (tag, n), {"now": NOW + start_ms, "policy": "noeviction", "maxmem": 0, "sample": 20}); n += 1
+                h.preset(0, "k", vstr("old"), h.now + start_dl if start_dl else 0)
+                h.cmd(*form)
+                for rd in (("TTL", "k"), ("PTTL", "k"), ("EXPIRETIME", "k"), ("PEXPIRETIME", "k"), ("GET", "k")):
+                    h.cmd(*rd)
+                h.advance(1001)
+                h.cmd("PTTL", "k"); h.cmd("TYPE", "k"); h.cmd("PERSIST", "k"); h.cmd("PTTL", "k")
+                out.append(h.s)
+    return out
+
 # ---- instrumentation ----------------------------------------------------------------------------------------
 def instrument(base, rng=None, sweep_p=0.0, suffix=""):
     """copy of a history with a digest after every event and, with probability sweep_p before each event, a
